@@ -86,10 +86,13 @@ def run_obligation(pid, module, h, params, tier, seed, budget_scale=1.0):
     """symbolic run -> replay of counterexample / validation of witnesses."""
     budget = h.budget.get(tier, h.budget["quick"]) * budget_scale
     job = {"module": module, "harness": h.name, "params": params}
-    sym = _worker(dict(job, mode="symbolic", budget=budget, ppt=h.per_path_timeout, seed=seed),
+    # per-path / per-query time-outs are wall clock (z3): the thorough tier allows three times as much, so that a loaded
+    # machine turns fewer queries into "unknown" paths
+    ppt = h.per_path_timeout * (3 if tier == "thorough" else 1)
+    sym = _worker(dict(job, mode="symbolic", budget=budget, ppt=ppt, seed=seed),
                   wall_timeout=budget * 2 + 120)
     if sym.get("verdict") == "error":  # crashed worker (solver abort, OOM under load): retry once
-        sym = _worker(dict(job, mode="symbolic", budget=budget, ppt=h.per_path_timeout, seed=seed + 1),
+        sym = _worker(dict(job, mode="symbolic", budget=budget, ppt=ppt, seed=seed + 1),
                       wall_timeout=budget * 2 + 120)
     ob = {"harness": h.name, "params": params, "symbolic": sym, "status": None}
     if sym.get("verdict") == "error":
